@@ -17,10 +17,15 @@ package blb_test
 // execution time.
 
 import (
+	"bufio"
+	"encoding/json"
 	"flag"
 	"fmt"
 	"os"
+	"os/exec"
 	"path/filepath"
+	"strconv"
+	"strings"
 	"runtime"
 	"sort"
 	"sync"
@@ -953,7 +958,14 @@ func (h *c05H) finish(tr *vw.Trace) {
 		vw.Stat(k, int64(v))
 	}
 	if h.stats["removed.old"] > 0 && h.stats["removed.gone"]+h.stats["ev.49"] > 0 {
-		vw.Distinct(fmt.Sprintf("%d/%d/%d/%d/%d", len(d.Cl.TS)-1, len(h.soup), nd, h.stats["removed.old"], h.stats["removed.gone"]))
+		fp := fmt.Sprintf("%d/%d/%d/%d/%d", len(d.Cl.TS)-1, len(h.soup), nd, h.stats["removed.old"], h.stats["removed.gone"])
+		vw.Distinct(fp)
+		if os.Getenv("VERIF_CHUNK") != "" {
+			if f, err := os.OpenFile(filepath.Join(vw.OutDir(), "distinct.txt"), os.O_APPEND|os.O_CREATE|os.O_WRONLY, 0o644); err == nil {
+				fmt.Fprintln(f, fp)
+				f.Close()
+			}
+		}
 	}
 }
 
@@ -1549,6 +1561,18 @@ func TestVerifC05(t *testing.T) {
 	defer tr.Close()
 	defer vw.Finish("C05")
 
+	if os.Getenv("VERIF_CHUNK") != "" {
+		// child process of a thorough run: one chunk of random integrated cases (goroutines of finished
+		// cases idle forever and make every quiescence scan slower, so long runs are cut into processes)
+		k, _ := strconv.Atoi(os.Getenv("VERIF_CHUNK"))
+		n := vw.Scale(36, 200)
+		for ci := k * c05ChunkSize; ci < (k+1)*c05ChunkSize && ci < n; ci++ {
+			if vw.CaseSelected(fmt.Sprint(ci)) {
+				c05Case(root, ci, tr)
+			}
+		}
+		return
+	}
 	for ci := 0; ci < vw.Scale(10, 60); ci++ {
 		if vw.CaseSelected(fmt.Sprintf("g%d", ci)) {
 			c05CaseCheck(root, ci, tr)
@@ -1578,9 +1602,78 @@ func TestVerifC05(t *testing.T) {
 		}
 	}
 	n := vw.Scale(36, 200)
+	if vw.Thorough() && os.Getenv("VERIF_CASES") == "" {
+		c05Parent(t, tr, n)
+		return
+	}
 	for ci := 0; ci < n; ci++ {
 		if vw.CaseSelected(fmt.Sprint(ci)) {
 			c05Case(root, ci, tr)
 		}
+	}
+}
+
+const c05ChunkSize = 25
+
+// c05Parent runs the random cases of a thorough run in child processes and merges their output.
+func c05Parent(t *testing.T, tr *vw.Trace, n int) {
+	for k := 0; k*c05ChunkSize < n; k++ {
+		sub := filepath.Join(vw.OutDir(), fmt.Sprintf("chunk%d", k))
+		os.MkdirAll(sub, 0o755)
+		cmd := exec.Command(os.Args[0], "-test.run=TestVerifC05$", "-test.timeout=1800s")
+		cmd.Env = append(os.Environ(), "VERIF_CHUNK="+fmt.Sprint(k), "VERIF_OUT="+sub)
+		if out, err := cmd.CombinedOutput(); err != nil {
+			t.Fatalf("chunk %d failed: %v\n%s", k, err, out)
+		}
+		f, err := os.Open(filepath.Join(sub, "C05.trace"))
+		if err != nil {
+			t.Fatalf("chunk %d: %v", k, err)
+		}
+		sc := bufio.NewScanner(f)
+		sc.Buffer(make([]byte, 1<<20), 1<<26)
+		for sc.Scan() {
+			line := sc.Text()
+			if strings.HasPrefix(line, "# case ") {
+				tr.Case(strings.Fields(line)[2])
+				continue
+			}
+			if len(line) == 0 {
+				continue
+			}
+			var xs []int64
+			for _, w := range strings.Fields(line[1:]) {
+				v, _ := strconv.ParseInt(w, 10, 64)
+				xs = append(xs, v)
+			}
+			if line[0] == '>' {
+				tr.Op(xs...)
+			} else if line[0] == '<' {
+				tr.Obs(xs...)
+			}
+		}
+		f.Close()
+		var res struct {
+			Stats      map[string]int64 `json:"stats"`
+			Samples    []string         `json:"samples"`
+			Violations []vw.Violation   `json:"violations"`
+			Distinct   []string         `json:"distinct"`
+		}
+		if b, err := os.ReadFile(filepath.Join(sub, "C05.result.json")); err == nil && json.Unmarshal(b, &res) == nil {
+			for k2, v := range res.Stats {
+				vw.Stat(k2, v)
+			}
+			for _, s := range res.Samples {
+				vw.Sample(s)
+			}
+			for _, v := range res.Violations {
+				vw.Report(v)
+			}
+		}
+		if b, err := os.ReadFile(filepath.Join(sub, "distinct.txt")); err == nil {
+			for _, fp := range strings.Fields(string(b)) {
+				vw.Distinct(fp)
+			}
+		}
+		os.RemoveAll(filepath.Join(sub, "glog"))
 	}
 }
